@@ -45,9 +45,26 @@ def validate_stream_traces(c, wd, trace):
     c.cov["traces_validated_against_impl"] += acc
     c.cov["states"] += states
     c.cov["transitions"] += states
+    # how each run ended (a rejection stops at the first unmatched event; whether the stream was
+    # reconstructed exactly is known all the same)
+    ends, run = {}, None
+    if rej:
+        for ev in read_ndjson(trace):
+            if ev["e"] == "Reset":
+                run = ev.get("run")
+            elif ev["e"] in ("End", "Panic", "ReconstructPanic"):
+                ends[run] = ev
     out = []
     for x in rej:
-        out.append((classify(x["event"]), x, cases.get(x["run"], {})))
+        kind = classify(x["event"])
+        end = ends.get(x["run"])
+        if kind in ("grammar", "other", "pending", "header") and end is not None:
+            failed = end["e"] != "End" or end.get("result") != "ok" or not end.get("rebuilt_equal") or not end.get("blocks_equal")
+            if failed:
+                # not only does the run deviate from the grammar: its reconstruction is not exact either
+                kind = "end"
+                x = dict(x, event=dict(end, first_deviation=x["event"].get("m") or x["event"].get("e")))
+        out.append((kind, x, cases.get(x["run"], {})))
     return out
 
 
